@@ -2705,7 +2705,12 @@ def _parse_simple_lines(
                 if isinstance(value, bool):
                     return 1.0 if value else 0.0
                 if isinstance(value, (int, float)):
-                    return float(value)
+                    try:
+                        return float(value)
+                    except OverflowError:
+                        raise ValueError(
+                            f"numeric argument is too large: {arg_src.strip()[:40]}"
+                        ) from None
         return _evaluate_once(arg_src, _to_c_expr(arg_src, vars, ctx))
 
     def _resolve_optional_numeric_arg(
